@@ -108,6 +108,11 @@ func (fr *Frame) callFunc(fn *ssa.Function, pos token.Pos, st *State, args []*Te
 	}
 	res, out, retReach := ex.run(fn, args, freeVars, st, fr.reach[fr.curBlock], chain, fr.depth+1)
 	st.arrs = out.arrs
+	if retReach != False {
+		// execution continues after the call only if the callee returned normally (this carries
+		// the exit conditions of the callee's loops)
+		fr.assumeG(retReach)
+	}
 	if preInline != nil && retReach != False {
 		// ghost assignments of an inlined contract take effect at the callee's exit
 		genv := ex.specEnv(fr, fn, inlineSpec, args, st, preInline)
